@@ -1,0 +1,187 @@
+//! Verification-only stand-ins for `AtomicU64` and `Mutex` (cargo
+//! feature `verif-hooks`); nothing in this module is compiled unless
+//! the feature is enabled.
+//!
+//! When no hook is installed on the current thread, every operation
+//! forwards to the `std` primitive it wraps.  When a hook is installed
+//! (see [`set_thread_hook`]), every atomic access and lock operation is
+//! first routed through it, so that a test harness can own the thread
+//! schedule and the memory model.
+use std::cell::RefCell;
+use std::sync::atomic::Ordering;
+use std::sync::Arc;
+use std::sync::LockResult;
+use std::sync::PoisonError;
+use std::sync::TryLockError;
+use std::sync::TryLockResult;
+
+/// Callbacks invoked by the stand-ins when a hook is installed.
+pub trait SyncHook: Send + Sync {
+    /// An atomic load at `addr`; `real` is the value currently in the backing cell.
+    fn load(&self, addr: usize, real: u64, order: Ordering) -> u64;
+    /// An atomic store of `value` at `addr`; `real` is the value currently in the backing cell.
+    fn store(&self, addr: usize, real: u64, value: u64, order: Ordering);
+    /// Blocking acquisition of the mutex at `addr`.
+    fn lock(&self, addr: usize);
+    /// Non-blocking acquisition of the mutex at `addr`; returns whether it succeeded.
+    fn try_lock(&self, addr: usize) -> bool;
+    /// Release of the mutex at `addr`.
+    fn unlock(&self, addr: usize);
+}
+
+thread_local! {
+    static HOOK: RefCell<Option<Arc<dyn SyncHook>>> = const { RefCell::new(None) };
+}
+
+/// Installs (or clears) the hook for the current thread.
+pub fn set_thread_hook(hook: Option<Arc<dyn SyncHook>>) {
+    HOOK.with(|slot| *slot.borrow_mut() = hook);
+}
+
+fn hook() -> Option<Arc<dyn SyncHook>> {
+    HOOK.try_with(|slot| slot.borrow().clone()).ok().flatten()
+}
+
+/// Stand-in for [`std::sync::atomic::AtomicU64`].
+#[derive(Debug)]
+pub struct AtomicU64 {
+    real: std::sync::atomic::AtomicU64,
+}
+
+impl AtomicU64 {
+    /// See [`std::sync::atomic::AtomicU64::new`].
+    pub const fn new(value: u64) -> Self {
+        Self {
+            real: std::sync::atomic::AtomicU64::new(value),
+        }
+    }
+
+    /// See [`std::sync::atomic::AtomicU64::load`].
+    pub fn load(&self, order: Ordering) -> u64 {
+        match hook() {
+            Some(hook) => hook.load(
+                self as *const _ as usize,
+                self.real.load(Ordering::Relaxed),
+                order,
+            ),
+            None => self.real.load(order),
+        }
+    }
+
+    /// See [`std::sync::atomic::AtomicU64::store`].
+    pub fn store(&self, value: u64, order: Ordering) {
+        if let Some(hook) = hook() {
+            hook.store(
+                self as *const _ as usize,
+                self.real.load(Ordering::Relaxed),
+                value,
+                order,
+            );
+        }
+        self.real.store(value, order);
+    }
+}
+
+/// Stand-in for [`std::sync::Mutex`].
+#[derive(Debug)]
+pub struct Mutex<T> {
+    real: std::sync::Mutex<T>,
+}
+
+/// Stand-in for [`std::sync::MutexGuard`].
+pub struct MutexGuard<'a, T> {
+    hook: Option<(Arc<dyn SyncHook>, usize)>,
+    inner: std::sync::MutexGuard<'a, T>,
+}
+
+impl<T: std::fmt::Debug> std::fmt::Debug for MutexGuard<'_, T> {
+    fn fmt(&self, f: &mut std::fmt::Formatter<'_>) -> std::fmt::Result {
+        self.inner.fmt(f)
+    }
+}
+
+impl<T> Mutex<T> {
+    /// See [`std::sync::Mutex::new`].
+    pub const fn new(value: T) -> Self {
+        Self {
+            real: std::sync::Mutex::new(value),
+        }
+    }
+
+    fn wrap<'a>(
+        &'a self,
+        hook: Option<Arc<dyn SyncHook>>,
+        inner: std::sync::MutexGuard<'a, T>,
+    ) -> MutexGuard<'a, T> {
+        let addr = self as *const _ as usize;
+        MutexGuard {
+            hook: hook.map(|h| (h, addr)),
+            inner,
+        }
+    }
+
+    /// See [`std::sync::Mutex::lock`].
+    pub fn lock(&self) -> LockResult<MutexGuard<'_, T>> {
+        let hook = hook();
+        if let Some(hook) = hook.as_ref() {
+            hook.lock(self as *const _ as usize);
+        }
+
+        match self.real.lock() {
+            Ok(inner) => Ok(self.wrap(hook, inner)),
+            Err(poison) => Err(PoisonError::new(self.wrap(hook, poison.into_inner()))),
+        }
+    }
+
+    /// See [`std::sync::Mutex::try_lock`].
+    pub fn try_lock(&self) -> TryLockResult<MutexGuard<'_, T>> {
+        let hook = hook();
+        if let Some(hook) = hook.as_ref() {
+            if !hook.try_lock(self as *const _ as usize) {
+                return Err(TryLockError::WouldBlock);
+            }
+        }
+
+        match self.real.try_lock() {
+            Ok(inner) => Ok(self.wrap(hook, inner)),
+            Err(TryLockError::Poisoned(poison)) => Err(TryLockError::Poisoned(PoisonError::new(
+                self.wrap(hook, poison.into_inner()),
+            ))),
+            Err(TryLockError::WouldBlock) => {
+                if let Some(hook) = hook.as_ref() {
+                    hook.unlock(self as *const _ as usize);
+                }
+                Err(TryLockError::WouldBlock)
+            }
+        }
+    }
+
+    /// See [`std::sync::Mutex::clear_poison`].
+    pub fn clear_poison(&self) {
+        self.real.clear_poison()
+    }
+}
+
+impl<T> std::ops::Deref for MutexGuard<'_, T> {
+    type Target = T;
+
+    fn deref(&self) -> &T {
+        &self.inner
+    }
+}
+
+impl<T> std::ops::DerefMut for MutexGuard<'_, T> {
+    fn deref_mut(&mut self) -> &mut T {
+        &mut self.inner
+    }
+}
+
+impl<T> Drop for MutexGuard<'_, T> {
+    fn drop(&mut self) {
+        // The hook is told first; the real guard is released right
+        // after, before this thread reaches its next hooked operation.
+        if let Some((hook, addr)) = self.hook.take() {
+            hook.unlock(addr);
+        }
+    }
+}
